@@ -40,7 +40,7 @@ def build_tree(rng, root):
                 n["mode"] |= 0o700
             n["owner"] = (rng.choice([0, 0, 1, 2, 1000, 65534, 4242]), rng.choice([0, 0, 1, 5, 1000, 65534, 777]))
         n["mtime"] = base + rng.choice([0, 1, 59, 60, 3599, 3600, 86399, 86400, 86401, 2 * 86400,
-                                        rng.randrange(0, 40 * 86400)])
+                                        rng.randrange(0, 40 * 86400)]) + rng.choice([0, 0, 0.5, 0.999, 0.000001])
     tree.materialise(root, nodes)
     # a few hard links so that `hardlinks` varies on files
     files = [n for n in nodes if n["kind"] == "file"]
